@@ -224,6 +224,8 @@ func createOptimisedTransport(config *Configuration) *http.Transport {
 		TLSHandshakeTimeout: DefaultTLSHandshakeTimeout,
 		DisableCompression:  true,
 		ForceAttemptHTTP2:   true,
+		// a backend that accepts the request and never answers must not hold it forever
+		ResponseHeaderTimeout: config.GetResponseTimeout(),
 		DialContext: func(ctx context.Context, network, addr string) (net.Conn, error) {
 			dialer := &net.Dialer{
 				Timeout:   config.GetConnectionTimeout(),
